@@ -56,6 +56,12 @@ def scripted_programs(bpc):
         [["create", "/EMPTY.TXT"], ["makedir", "/t"], ["create", "/t/empty too.txt"], ["create", "/EMPTY.TXT", 1], ["getinfo", "/EMPTY.TXT"],
          ["create", "/t/empty too.txt", 1], ["getinfo", "/t/empty too.txt"], ["open", "a", "/EMPTY.TXT", "a"], ["hclose", "a"], ["makedir", "/u"],
          ["create", "/EMPTY.TXT", 1], ["listdir", "/"]],
+        # re-creating (wiping) a file that OWNS clusters, below the root and in it; writing it again, wiping it again (C04-m6: the chain stayed
+        # marked in use with no entry pointing at it)
+        [["makedir", "/w"], ["open", "a", "/w/FULL.BIN", "w"], ["write", "a", "57" * (2 * bpc + 5)], ["hclose", "a"], ["create", "/w/FULL.BIN", 1],
+         ["getsize", "/w/FULL.BIN"], ["open", "b", "/w/FULL.BIN", "r+"], ["write", "b", "58" * (bpc + 1)], ["hclose", "b"], ["create", "/w/FULL.BIN", 1],
+         ["open", "c", "/ROOTFULL.BIN", "w"], ["write", "c", "59" * bpc], ["hclose", "c"], ["create", "/ROOTFULL.BIN", 1], ["create", "/ROOTFULL.BIN", 0],
+         ["open", "d", "/w/other long name.bin", "w"], ["write", "d", "5a" * (3 * bpc)], ["hclose", "d"], ["listdir", "/w"]],
     ]
 
 
